@@ -11,6 +11,7 @@ package snap
 import (
 	"fmt"
 	"math/big"
+	"sync/atomic"
 	"testing"
 	"time"
 
@@ -36,7 +37,7 @@ var (
 	c48lSuicide = []byte{0x33, 0xff} // CALLER SELFDESTRUCT
 )
 
-var c48lOps = []string{"empty", "X-add-slot", "X-modify-slot", "X-delete-slot", "Z-add-slot+new-account", "Y-destroy"}
+var c48lOps = []string{"empty", "X-add-slot", "X-modify+delete-slot", "Z-add-slot+new-account", "Y-destroy"}
 
 func c48lSlots(vals ...int64) map[common.Hash]common.Hash {
 	m := map[common.Hash]common.Hash{}
@@ -80,10 +81,13 @@ func c48lBlocks(gspec *core.Genesis, ops []int) []*types.Block {
 		switch c48lOps[ops[i]] {
 		case "X-add-slot":
 			send(c48lX, 0, set(100+number, 1000+number))
-		case "X-modify-slot":
+		case "X-modify+delete-slot": // slot 1 gets a new value; slot 2 is deleted (re-created if it was deleted before)
 			send(c48lX, 0, set(1, 500+number))
-		case "X-delete-slot":
-			send(c48lX, 0, set(2, 0))
+			if number%2 == 0 {
+				send(c48lX, 0, set(2, 900+number))
+			} else {
+				send(c48lX, 0, set(2, 0))
+			}
 		case "Z-add-slot+new-account":
 			send(c48lZ, 0, set(200+number, 2000+number))
 			send(common.BytesToAddress([]byte{0xc4, 0x81, byte(number)}), 5, nil)
@@ -157,8 +161,8 @@ func c48lAsk(chain *core.BlockChain, roots []common.Hash, count map[string]int) 
 func TestVerif_C48_live(t *testing.T) {
 	mc.Run(t, "C48", func(r *mc.R) {
 		depth := mc.Pick(r, 4, 5)
-		r.Rule("per scheme {hash + snapshot, path}: every sequence of `depth` blocks over the per-block operations {empty, X adds a slot, X modifies a slot, X deletes a slot, Z adds a slot and a new account is funded, Y self-destructs} on a chain whose state-layer caps are scaled to 1 (one diff layer above the accumulator / disk layer), so that every imported block flattens the previous block's layer downwards; " +
-			"x request schedules {only after the last block, additionally after block i for one i, after every block}; a request set = 4 account-range and 7 storage-range requests (X whole / small budget / from the middle, Z, [X,Z], [Z,X] with budget, Y) against the root of the last block and (half of the set) of the block before, judged by the oracle of the static step (truth read from the trie at that root, client verification); distinct = (scheme, ops, schedule)")
+		r.Rule("per scheme {hash + snapshot, path}: every sequence of `depth` blocks over the per-block operations {empty, X adds a slot, X modifies one slot and deletes (odd blocks) / re-creates (even blocks) another, Z adds a slot and a new account is funded, Y self-destructs} on a chain whose state-layer caps are scaled to 1 (one diff layer above the accumulator / disk layer), so that every imported block flattens the previous block's layer downwards; " +
+			"x request schedules {only after the last block, additionally after the last-but-one block (thorough: after block i for every single i), after every block}; a request set = 4 account-range and 7 storage-range requests (X whole / small budget / from the middle, Z, [X,Z], [Z,X] with budget, Y) against the root of the last block and (half of the set) of the block before, judged by the oracle of the static step (truth read from the trie at that root, client verification); distinct = (scheme, ops, schedule)")
 		r.Assume("state.TriesInMemory and pathdb.maxDiffLayers are re-valued to 1 for this step by the instrumenter (checked at run time); the unscaled constants are exercised by the static step, which never flattens")
 		r.Bound("blocks", depth)
 		r.Bound("ops", c48lOps)
@@ -170,19 +174,24 @@ func TestVerif_C48_live(t *testing.T) {
 		for i := 0; i < depth; i++ {
 			nseq *= len(c48lOps)
 		}
-		var schedules [][]int
-		schedules = append(schedules, nil)
-		for i := 1; i < depth; i++ {
-			schedules = append(schedules, []int{i})
-		}
 		all := []int{}
 		for i := 1; i < depth; i++ {
 			all = append(all, i)
 		}
-		schedules = append(schedules, all)
+		schedules := [][]int{nil, {depth - 1}, all}
+		if r.Thorough() {
+			schedules = [][]int{nil, all}
+			for i := 1; i < depth; i++ {
+				schedules = append(schedules, []int{i})
+			}
+		}
 		r.Bound("sequences", nseq)
 		r.Bound("request_schedules", len(schedules))
 		schemes := []string{rawdb.HashScheme, rawdb.PathScheme}
+		var tNew, tStop, tIns, tAsk atomic.Int64
+		defer func() {
+			r.Bound("phase_wall_ms_summed_over_workers", map[string]int64{"new": tNew.Load() / 1e6, "stop": tStop.Load() / 1e6, "insert": tIns.Load() / 1e6, "ask": tAsk.Load() / 1e6})
+		}()
 		r.Parallel(nseq*len(schemes), func(idx int) {
 			scheme := schemes[idx%2]
 			x := idx / 2
@@ -201,24 +210,28 @@ func TestVerif_C48_live(t *testing.T) {
 				}
 				c := c48lCase{"live", scheme, names, append(append([]int{}, sched...), depth)}
 				count := map[string]int{}
-				flattened := false
+				flattened, completed := false, false
 				dbg := ""
 				r.Case(c, func() error {
 					options := &core.BlockChainConfig{TrieCleanLimit: 0, TrieDirtyLimit: 0, TrieTimeLimit: 5 * time.Minute, NoPrefetch: true,
 						SnapshotLimit: 100, SnapshotWait: true, StateScheme: scheme}
+					t0 := time.Now()
 					chain, err := core.NewBlockChain(rawdb.NewMemoryDatabase(), gspec, ethash.NewFaker(), options)
 					if err != nil {
 						return fmt.Errorf("harness: %v", err)
 					}
-					defer chain.Stop()
+					tNew.Add(int64(time.Since(t0)))
+					defer func() { t1 := time.Now(); chain.Stop(); tStop.Add(int64(time.Since(t1))) }()
 					ask := map[int]bool{depth: true}
 					for _, n := range sched {
 						ask[n] = true
 					}
 					for n := 1; n <= depth; n++ {
+						t2 := time.Now()
 						if _, err := chain.InsertChain(blocks[n-1 : n]); err != nil {
 							return fmt.Errorf("harness: import of block %d: %v", n, err)
 						}
+						tIns.Add(int64(time.Since(t2)))
 						if scheme == rawdb.PathScheme {
 							for i := 0; !chain.TrieDB().SnapshotCompleted(); i++ {
 								if i > 20000 {
@@ -236,9 +249,11 @@ func TestVerif_C48_live(t *testing.T) {
 						} else {
 							roots = append(roots, chain.Genesis().Root())
 						}
+						t3 := time.Now()
 						if err := c48lAsk(chain, roots, count); err != nil {
 							return fmt.Errorf("after block %d: %v", n, err)
 						}
+						tAsk.Add(int64(time.Since(t3)))
 					}
 					// sanity: the layer caps are really scaled down (genesis is no longer addressable, at most
 					// cap+1 = 2 of the block roots are still diff layers / addressable)
@@ -253,6 +268,7 @@ func TestVerif_C48_live(t *testing.T) {
 							alive++
 						}
 					}
+					completed = true
 					dbg = fmt.Sprintf("%d block roots addressable", alive)
 					if scheme == rawdb.HashScheme {
 						flattened = chain.Snapshots().Snapshot(chain.Genesis().Root()) == nil && alive <= 3
@@ -265,7 +281,7 @@ func TestVerif_C48_live(t *testing.T) {
 				if len(count) == 0 {
 					continue
 				}
-				if !flattened {
+				if completed && !flattened {
 					r.HarnessError(fmt.Sprintf("too many state layers are addressable after the last block (%s, %v, %s): the layer caps were not scaled down", scheme, names, dbg))
 					return
 				}
